@@ -18,7 +18,8 @@ for m in muts:
         for e in m["edits"]:
             p = os.path.join(d, e["file"]); s = open(p).read()
             if s.count(e["old"]) != 1:
-                print("MUTANT %s: pattern occurs %d times in %s" % (m["name"], s.count(e["old"]), e["file"])); raise SystemExit(2)
+                print("STALE    %-40s pattern occurs %d times in %s" % (m["name"], s.count(e["old"]), e["file"]), flush=True)
+                raise LookupError(m["name"])
             open(p, "w").write(s.replace(e["old"], e["new"]))
         env = dict(os.environ, XITORCH_REPO=d)
         checks = m.get("checks", [pid])
@@ -35,5 +36,7 @@ for m in muts:
             shutil.copy("/repo/pyproject.toml", d)
             r = subprocess.run([os.path.join(ROOT, "tools/baseline.py"), d], capture_output=True, text=True, env=dict(os.environ, XDIST="1"))
             print("   suite:", r.stdout.strip().splitlines()[0])
+    except LookupError:
+        pass
     finally:
         shutil.rmtree(d, ignore_errors=True)
